@@ -45,3 +45,67 @@ func VerifC08_seq() {
 	verifrt.Assert(c.sentContentMessages == count, "C08.seq.counter")
 	verifrt.Reach("C08.seq.end")
 }
+
+type verifC08IDs struct {
+	next    int64
+	calls   int
+	onEnter func(call int)
+}
+
+func (s *verifC08IDs) New(t proto.MessageType) int64 {
+	s.calls++
+	s.next += 4
+	id := s.next // the id is fixed when the clock is read, i.e. on entry
+	if s.onEnter != nil {
+		s.onEnter(s.calls)
+	}
+	return id
+}
+
+// VerifC08_concurrent: two goroutines generate a message each; the second arrives while the first
+// is inside the id generator (the only call-out of nextMsgSeq). Claim: id generation and sequence
+// numbering are one atomic step: the message with the smaller id carries the smaller seq no, and
+// the content numbering is 2c+1 / 2c in id order.
+func VerifC08_concurrent() {
+	// no synctest bubble here: the second goroutine blocks on a sync.Mutex, which a bubble does not
+	// regard as durably blocked; Settle falls back to yielding natively
+	func() {
+		ids := &verifC08IDs{}
+		c := &Conn{messageID: ids}
+		contentA := verifrt.NondetBool("contentA")
+		contentB := verifrt.NondetBool("contentB")
+		var idB int64
+		var seqB int32
+		doneB := false
+		ids.onEnter = func(call int) {
+			if call == 1 {
+				go func() {
+					idB, seqB = c.nextMsgSeq(contentB)
+					doneB = true
+				}()
+				verifrt.Settle()
+			}
+		}
+		idA, seqA := c.nextMsgSeq(contentA)
+		verifrt.Settle()
+		verifrt.Assert(doneB, "C08.conc.returns")
+		verifrt.Assert(idA != idB, "C08.conc.unique")
+		// order by id
+		firstSeq, secondSeq, firstContent, secondContent := seqA, seqB, contentA, contentB
+		if idB < idA {
+			firstSeq, secondSeq, firstContent, secondContent = seqB, seqA, contentB, contentA
+		}
+		want1 := int32(0)
+		n := int32(0)
+		if firstContent {
+			want1 = 1
+			n = 1
+		}
+		want2 := 2 * n
+		if secondContent {
+			want2++
+		}
+		verifrt.Assert(firstSeq == want1 && secondSeq == want2, "C08.conc.seqfollowsid")
+		verifrt.Reach("C08.conc.end")
+	}()
+}
